@@ -56,6 +56,14 @@ def gen_case(rng, tier, idx):
         for j_, m_ in enumerate(meas):
             m_['y'] = m_['y'] + 0.0
             m_['sigma'] = s0 * (4.0 if (two_levels and j_ % 2 == 1) else 1.0)
+        if rng.rand() < 0.35:
+            # one clique released twice, at two accuracies, with answers that disagree (drawn from another table): the
+            # optimum weighs them by their inverse variances.  The family of measured cliques stays disjoint.
+            m0 = meas[int(rng.randint(len(meas)))]
+            n0 = int(np.prod([shape[attrs.index(a)] for a in m0['proj']]))
+            s2 = m0['sigma'] * float(gen.pick(rng, [4.0, 0.25]))
+            x2 = measure.true_table(rng, [n0], N).reshape(-1)
+            meas.append(dict(Q=np.eye(n0), kind='identity', y=x2 + rng.normal(0, s2, n0), sigma=s2, proj=tuple(m0['proj'])))
     if oracle == 'pairwise':
         # the factor-graph oracle needs every attribute of the domain in some factor
         covered = set(a for m_ in meas for a in m_['proj'])
